@@ -80,6 +80,7 @@ static int sps_in_region(int h, int j) {
 }
 
 static int sps_hist_used; /* set by sps_config when a history pseudo-state was part of the entry set */
+static unsigned char sps_pseudo[SPS_NB]; /* set by sps_config: <initial> elements / histories whose (default) transition is taken in this step */
 
 /* configuration after the microstep that takes the transitions sel[] from configuration C with history H;
  * pristine: the initial step (enter the root and its default completion).
@@ -88,6 +89,7 @@ static void sps_config(const unsigned char *C, const unsigned char *H, const int
   unsigned char X[SPS_NB], E[SPS_NB], tmp[SPS_NB], Hn[SPS_NB];
   sp_zero(X, SPS_NB); sp_zero(E, SPS_NB);
   sps_hist_used = 0;
+  sp_zero(sps_pseudo, SPS_NB);
   for (int k = 0; k < SPS_NB; k++) Hn[k] = H[k];
   if (pristine) {
     sp_set(E, 0);
@@ -135,6 +137,7 @@ static void sps_config(const unsigned char *C, const unsigned char *H, const int
         if (rec) {
           for (int j = 1; j < D_N; j++) if (sps_in_region(i, j) && sp_bit(Hn, j)) sp_set(E, j);
         } else {
+          sp_set(sps_pseudo, i);
           for (int t = 0; t < D_T; t++) {
             if (d_tsrc[t] != i) continue;
             for (int k = 0; k < d_tntgt[t]; k++) {
@@ -147,6 +150,7 @@ static void sps_config(const unsigned char *C, const unsigned char *H, const int
           }
         }
       } else if (d_kind[i] == K_INITIAL) {
+        sp_set(sps_pseudo, i);
         for (int t = 0; t < D_T; t++) {
           if (d_tsrc[t] != i) continue;
           for (int k = 0; k < d_tntgt[t]; k++) {
